@@ -1574,10 +1574,12 @@ def r124(ctx: Ctx) -> RuleReport:
         not_concept = (f'{tv}[1]!=CONCEPT_ROLE', True) in fx or (f'{tv}[1]==CONCEPT_ROLE', False) in fx
         is_var = any(pol and f.startswith(f'{tv}[2]in') for f, pol in fx) or any((not pol) and f.startswith(f'{tv}[2]notin') for f, pol in fx)
         key = f'{fi.fq}: `{norm(a)[:50]}` makes the target a candidate context'
-        if not_concept and is_var:
-            rep.ok(key, fi.loc(a), 'only for a relation whose target is a variable')
+        # (the membership test itself is redundant for the outcome: a target that is no variable can only equal the stack top - a variable - if it is
+        # spelled like one, and then it passes the membership test as well; what matters is that a concept is never a candidate)
+        if not_concept:
+            rep.ok(key, fi.loc(a), 'only for a relation' + (' whose target is a variable' if is_var else ''))
         else:
-            miss = [w for w, okk in (('the role is not the concept role', not_concept), ('the target is a variable of the graph', is_var)) if not okk]
+            miss = [w for w, okk in (('the role is not the concept role', not_concept),) if not okk]
             rep.violation(key, fi.loc(a), f'the target is added to `{lst}` without it being established that {" and that ".join(miss)}: a concept or constant that is spelled like '
                           f'the variable on top of the stack - (a / a), :polarity a - is taken for the node the triple was written in, and the simulation runs on where '
                           f'it should have stopped')
